@@ -62,6 +62,7 @@ func syncDAG(ctx context.Context, blockService blockservice.BlockService, block 
 	if err != nil {
 		return err
 	}
+	verifGate("sync.head.stored", nil, "")
 
 	err = loadBlockLinks(ctx, &linkSystem, block)
 	if err != nil {
